@@ -106,6 +106,7 @@ type LinEnv struct {
 	lenSum func(callee *ssa.Function, call *ssa.Call, env *LinEnv) ([]*Lin, bool) // length summaries of repo functions
 	names  map[ssa.Value]string
 	depth  int
+	Extra []Fact // definitional facts of quotient/remainder terms
 }
 
 func NewLinEnv(p *Prog, fn *ssa.Function) *LinEnv {
@@ -207,6 +208,28 @@ func (e *LinEnv) Int(v ssa.Value) *Lin {
 			if b.IsConst() && b.C >= 0 && b.C < 31 {
 				return e.Int(x.X).Scale(1 << uint(b.C))
 			}
+		case token.SHR, token.AND:
+			b := e.Int(x.Y)
+			v := e.Int(x.X)
+			if b.IsConst() && b.C > 0 && v.knownNonNeg() {
+				d := int64(0)
+				if x.Op == token.SHR && b.C < 31 {
+					d = int64(1) << uint(b.C)
+				} else if x.Op == token.AND && (b.C&(b.C+1)) == 0 {
+					d = b.C + 1
+				}
+				if d > 0 {
+					name := v.String()
+					q := linTerm(fmt.Sprintf("(%s)/%d", name, d), true)
+					r := linTerm(fmt.Sprintf("(%s)%%%d", name, d), true)
+					e.addExtra(Fact{E: v.Sub(q.Scale(d)).Sub(r), Eq: true})
+					e.addExtra(Fact{E: linConst(d - 1).Sub(r)})
+					if x.Op == token.SHR {
+						return q
+					}
+					return r
+				}
+			}
 		}
 	case *ssa.Convert:
 		if _, ok := x.X.Type().Underlying().(*types.Basic); ok {
@@ -220,6 +243,10 @@ func (e *LinEnv) Int(v ssa.Value) *Lin {
 		}
 	case *ssa.ChangeType:
 		return e.Int(x.X)
+	case *ssa.Phi:
+		if base, step, k, ok := e.inductionInt(x); ok {
+			return e.Int(base).Add(k.Scale(step))
+		}
 	case *ssa.Call:
 		if b, ok := x.Call.Value.(*ssa.Builtin); ok && b.Name() == "len" {
 			ls, ok := e.Len(x.Call.Args[0])
@@ -286,6 +313,13 @@ func (e *LinEnv) Len(v ssa.Value) ([]*Lin, bool) {
 		}
 	case *ssa.Parameter:
 		return []*Lin{linTerm("len("+x.Name()+")", true)}, true
+	case *ssa.UnOp:
+		// slice loaded from a struct field: use the field's length invariant (every store to that field in the program has this length)
+		if fa, ok := x.X.(*ssa.FieldAddr); ok && x.Op == token.MUL {
+			if n, ok := fieldLenInvariant(e.p, fa); ok {
+				return []*Lin{linConst(n)}, true
+			}
+		}
 	case *ssa.MakeSlice:
 		return []*Lin{e.Int(x.Len)}, true
 	case *ssa.ChangeType:
@@ -313,6 +347,12 @@ func (e *LinEnv) Len(v ssa.Value) ([]*Lin, bool) {
 		}
 		return out, true
 	case *ssa.Phi:
+		if base, step, k, ok := e.inductionSlice(x); ok {
+			bl, ok2 := e.Len(base)
+			if ok2 && len(bl) == 1 {
+				return []*Lin{bl[0].Sub(k.Scale(step))}, true
+			}
+		}
 		var out []*Lin
 		for _, ed := range x.Edges {
 			ls, ok := e.Len(ed)
@@ -552,51 +592,7 @@ func ProveNonNeg(E *Lin, facts []Fact) bool {
 	if E.triviallyNonNeg() {
 		return true
 	}
-	// substitute equalities first, then try subtracting up to two inequality facts (with small multipliers)
-	var ineq []*Lin
-	var eqs []*Lin
-	for _, f := range facts {
-		if f.Ne {
-			continue
-		}
-		if f.Eq {
-			eqs = append(eqs, f.E)
-		} else {
-			ineq = append(ineq, f.E)
-		}
-	}
-	cands := []*Lin{E}
-	for _, q := range eqs {
-		var next []*Lin
-		for _, c := range cands {
-			for m := int64(-4); m <= 4; m++ {
-				next = append(next, c.addScaled(q, m))
-			}
-		}
-		cands = next
-		if len(cands) > 2000 {
-			break
-		}
-	}
-	for _, c := range cands {
-		if c.triviallyNonNeg() {
-			return true
-		}
-		for _, f1 := range ineq {
-			for m1 := int64(1); m1 <= 16; m1 *= 2 {
-				c1 := c.addScaled(f1, -m1)
-				if c1.triviallyNonNeg() {
-					return true
-				}
-				for _, f2 := range ineq {
-					if c1.addScaled(f2, -1).triviallyNonNeg() {
-						return true
-					}
-				}
-			}
-		}
-	}
-	return false
+	return lpProveNonNeg(E, facts)
 }
 
 // Decide returns +1 if E >= 0 is proved, -1 if E < 0 is proved, 0 otherwise.
@@ -609,4 +605,131 @@ func Decide(E *Lin, facts []Fact) int {
 		return -1
 	}
 	return 0
+}
+
+func (a *Lin) knownNonNeg() bool { return a.triviallyNonNeg() }
+
+func (e *LinEnv) addExtra(f Fact) {
+	for _, o := range e.Extra {
+		if o.Eq == f.Eq && o.E.Equal(f.E) {
+			return
+		}
+	}
+	e.Extra = append(e.Extra, f)
+}
+
+// loopIter names the iteration count of the loop headed by block b.
+func (e *LinEnv) loopIter(b *ssa.BasicBlock) *Lin {
+	return linTerm(fmt.Sprintf("iter@%s.b%d", e.fn.Name(), b.Index), true)
+}
+
+// inductionInt: x = phi(x0, x + c) in a loop header  =>  x = x0 + c*K.
+func (e *LinEnv) inductionInt(x *ssa.Phi) (base ssa.Value, step int64, k *Lin, ok bool) {
+	if len(x.Edges) != 2 {
+		return
+	}
+	blk := x.Block()
+	for i := 0; i < 2; i++ {
+		back, init := x.Edges[i], x.Edges[1-i]
+		if !blk.Dominates(blk.Preds[i]) {
+			continue // not a back edge
+		}
+		bo, isB := back.(*ssa.BinOp)
+		if !isB || (bo.Op != token.ADD && bo.Op != token.SUB) {
+			continue
+		}
+		c, isC := bo.Y.(*ssa.Const)
+		if bo.X != ssa.Value(x) || !isC || c.Value == nil || c.Value.Kind() != constant.Int {
+			continue
+		}
+		v, exact := constant.Int64Val(c.Value)
+		if !exact {
+			continue
+		}
+		if bo.Op == token.SUB {
+			v = -v
+		}
+		return init, v, e.loopIter(blk), true
+	}
+	return
+}
+
+// inductionSlice: s = phi(s0, s[c:]) in a loop header  =>  len(s) = len(s0) - c*K.
+func (e *LinEnv) inductionSlice(x *ssa.Phi) (base ssa.Value, step int64, k *Lin, ok bool) {
+	if len(x.Edges) != 2 {
+		return
+	}
+	blk := x.Block()
+	for i := 0; i < 2; i++ {
+		back, init := x.Edges[i], x.Edges[1-i]
+		if !blk.Dominates(blk.Preds[i]) {
+			continue
+		}
+		sl, isS := back.(*ssa.Slice)
+		if !isS || sl.X != ssa.Value(x) || sl.High != nil || sl.Low == nil {
+			continue
+		}
+		c, isC := sl.Low.(*ssa.Const)
+		if !isC || c.Value == nil {
+			continue
+		}
+		v, exact := constant.Int64Val(c.Value)
+		if !exact {
+			continue
+		}
+		return init, v, e.loopIter(blk), true
+	}
+	return
+}
+
+var fieldLenCache = map[string]int64{}
+
+// fieldLenInvariant: every store to the struct field addressed by fa, anywhere in the repository, stores a slice of one constant length.
+func fieldLenInvariant(p *Prog, fa *ssa.FieldAddr) (int64, bool) {
+	st, ok := fa.X.Type().Underlying().(*types.Pointer).Elem().Underlying().(*types.Struct)
+	if !ok {
+		return 0, false
+	}
+	if _, isSlice := st.Field(fa.Field).Type().Underlying().(*types.Slice); !isSlice {
+		return 0, false
+	}
+	key := p.Arch + "|" + fa.X.Type().String() + "." + st.Field(fa.Field).Name()
+	if v, ok := fieldLenCache[key]; ok {
+		return v, v >= 0
+	}
+	fieldLenCache[key] = -1
+	var val int64 = -1
+	n := 0
+	for _, fn := range p.RepoFuncs() {
+		var env *LinEnv
+		for _, b := range fn.Blocks {
+			for _, in := range b.Instrs {
+				store, ok := in.(*ssa.Store)
+				if !ok {
+					continue
+				}
+				fa2, ok := store.Addr.(*ssa.FieldAddr)
+				if !ok || fa2.Field != fa.Field || !types.Identical(fa2.X.Type(), fa.X.Type()) {
+					continue
+				}
+				if env == nil {
+					env = NewLinEnv(p, fn)
+				}
+				ls, ok := env.Len(store.Val)
+				if !ok || len(ls) != 1 || !ls[0].IsConst() {
+					return 0, false
+				}
+				if n > 0 && val != ls[0].C {
+					return 0, false
+				}
+				val = ls[0].C
+				n++
+			}
+		}
+	}
+	if n == 0 {
+		return 0, false
+	}
+	fieldLenCache[key] = val
+	return val, true
 }
